@@ -280,7 +280,9 @@ func returnLeaves(v ssa.Value, ok func(ssa.Value) bool) []ssa.Value {
 }
 
 // mapperImage computes the set of runes a strings.Map callback of the shape
-//   if P(r) { return r } else if Q(r) { return -1 } ... return '_'
+//
+//	if P(r) { return r } else if Q(r) { return -1 } ... return '_'
+//
 // can return (excluding -1).
 func mapperImage(pe *runePredEval, lit *ast.FuncLit) (runeSet, bool, string) {
 	if lit.Type.Params.NumFields() != 1 || len(lit.Type.Params.List[0].Names) != 1 {
